@@ -35,6 +35,11 @@ def add(mech, what, **kw):
     VIOL.append(dict(mech=mech, what=what, **kw))
 
 
+def setup_worker():
+    from vf.props import C12
+    C12.setup_worker()          # raw optimiser vectors on every OptimizedResult (used only to attribute a miss)
+
+
 def curve(T, p):
     y = np.full(len(T), p["base"], dtype=float)
     if p["kind"] in ("both", "heating"):
@@ -76,6 +81,7 @@ def gen_cases(tier, seed):
     ns = 24 if q else 300
     cases += [dict(kind="fit", profile=["current", "current", "legacy"][i % 3], usage=["heating", "cooling", "both"][(i // 3) % 3], tz=zones[i % len(zones)], steep=True,
                    n=100000 + i, timeout=2400) for i in range(ns)]
+    cases += [dict(kind="fit", profile="current", usage="cooling", tz="America/Chicago", directed=d, n=200000 + d, timeout=2400) for d in ((4,) if q else (4, 0, 1, 2, 3, 5, 6, 7))]
     return cases
 
 
@@ -87,13 +93,27 @@ def run_case(spec):
     tz, kind, prof = spec["tz"], spec["usage"], spec["profile"]
     start = pd.Timestamp("2018-01-01") + pd.Timedelta(days=int(rng.integers(0, 365)))
     idx = pd.date_range(start.tz_localize(tz), periods=365, freq="D")
-    T, p, rejected = draw(rng, kind, idx, steep=bool(spec.get("steep")))
+    if spec.get("directed"):
+        # the building and weather year in which the K3 consequence was first seen (cooling only, base 10, balance 66F, 2.0/F)
+        start = pd.Timestamp("2019-01-01")
+        idx = pd.date_range(start.tz_localize(tz), periods=365, freq="D")
+        wr = np.random.default_rng(spec["directed"])
+        T = 58 - 22 * np.cos(2 * np.pi * (np.arange(365) - 15) / 365) + wr.normal(0, 5, 365)
+        p, rejected = dict(kind="cooling", base=10.0, hb=0.0, hs=0.0, cb=66.0, cs=2.0), 0
+        if not ((T > 66).sum() >= 30 and (T <= 66).sum() >= 30 and T.max() - 66 >= 5 and 66 - T.min() >= 5):
+            raise RuntimeError("premise of the directed case broken")
+        I.reach("fit.directed_k3_corner")
+    else:
+        T, p, rejected = draw(rng, kind, idx, steep=bool(spec.get("steep")))
     I.reach("generator.rejected_draws", rejected)
     if T is None:
         return dict(viol=[], reach=I.take_reach(), keys=[], hist={"accepted": "no"}, events=0)
     y_true = curve(T, p)
     noise = float(rng.uniform(0, 0.01))
     y = y_true * (1 + rng.normal(0, noise, len(T)))
+    if spec.get("directed"):
+        noise = 0.01
+        y = y_true * (1 + 0.01 * np.random.default_rng(spec["directed"] + 1000).uniform(-1, 1, len(y_true)))
     if prof == "billing":
         steps = []
         while sum(steps) < 365 - 33:
@@ -127,6 +147,18 @@ def run_case(spec):
             dd = float(np.max(np.abs(np.asarray(comp.eval(np.asarray(comp.T, float))[0]) - np.asarray(comp.model))))
             if on_limit and dd > 1e-6 * max(1.0, float(np.max(np.abs(comp.model)))):
                 k1.append(name)
+    # C12-K3 consequence: a selection-stage component of the chosen split whose raw optimum had its balance points reversed is read
+    # back with heating and cooling exchanged (stored curve != scored curve); the final refit starts from that wrong vector
+    k3 = []
+    from vf.props import C12
+    for name in str(m.best_combination).split("__"):
+        comp = m.fit_components.get(name)
+        if comp is None:
+            continue
+        sc = np.asarray(comp.model, dtype=float)
+        dd = float(np.max(np.abs(np.asarray(comp.eval(np.asarray(comp.T, float))[0], dtype=float) - sc)))
+        if dd > 1e-6 * max(1.0, float(np.max(np.abs(sc)))) and str(C12.classify_curve_mismatch(comp)).startswith("K3"):
+            k3.append(name)
     tag = dict(profile=prof, kind=kind, tz=tz, params={k: (round(v, 3) if isinstance(v, float) else v) for k, v in p.items()}, noise=round(noise, 4),
                split=m.best_combination, types=[str(s.model_type.value) for s in m.params.submodels.values()])
 
@@ -159,7 +191,11 @@ def run_case(spec):
             sse_in, sse_out = float((err[inside] ** 2).sum()), float((err[~inside] ** 2).sum())
             frac_out = sse_out / max(sse_in + sse_out, 1e-300)
             nrmse_in = math.sqrt(sse_in / max(1, inside.sum())) / float(truth[ok].mean()) if inside.any() else 0.0
-            if k1 and prof != "billing":
+            if k3 and prof != "billing":
+                add("not-recovered:selected-component-read-back-with-heating-and-cooling-exchanged",
+                    "%s NRMSE %.3f: selection-stage component(s) %s of the chosen split were scored with reversed raw balance points and read back with the heating and "
+                    "cooling sides exchanged (C12 mechanism K3); the final refit started from that vector and ended as %s" % (label, nrmse, k3, tag["types"]), nrmse=nrmse, **tag)
+            elif k1 and prof != "billing":
                 add("not-recovered:final-submodel-balance-point-moved-onto-segment-limit",
                     "%s NRMSE %.3f: final sub-model(s) %s store a balance point on the segment limit although the optimiser scored another curve (C12 mechanism K1)" % (label, nrmse, k1),
                     nrmse=nrmse, **tag)
